@@ -82,11 +82,14 @@ TArchInfo == /\ IsEvent("call") /\ Ev.name = "archiveinfo" /\ ArchiveInfo
                   /\ Ev.flag = (\E f \in 1..NFolders : Cardinality(FolderMembers(f)) > 1)   \* solid flag
                   /\ (a.methods # <<"?">> => Ev.methods = a.methods)                   \* method names = coders present
 
+(* C12 "whatever calls it makes": a write-side call on the read-mode object leaves the archive's bytes alone, at once *)
+TWrongMode == IsEvent("call") /\ Ev.name = "wrongmode" /\ WrongMode /\ Ev.same
+
 TClosed == /\ IsEvent("closed")
            /\ Ev.exc = "" /\ Ev.same                                             \* C12: not a byte of the archive changed
            /\ UNCHANGED vars
 
-TNext == TArch \/ TExtract \/ TTestZip \/ TTest \/ TReset \/ TNames \/ TList \/ TGetInfo \/ TNeedsPw \/ TArchInfo \/ TClosed
+TNext == TWrongMode \/ TArch \/ TExtract \/ TTestZip \/ TTest \/ TReset \/ TNames \/ TList \/ TGetInfo \/ TNeedsPw \/ TArchInfo \/ TClosed
 TSpec == TInit /\ [][TNext]_tvars
 
 Done == /\ (l = Len(Traces[tid]) + 1) => PrintT(<<"ACC", tid>>)
